@@ -251,7 +251,8 @@ class TranslatorSMT2(Translator):
             # op != 0
             cond = smt2_distinct(op, zero_smt2)
             # ite(cond, size - 1, src)
-            res = smt2_ite(cond, bvsub(size_smt2, one_smt2), src)
+            # No bit set: the count is the size
+            res = smt2_ite(cond, bvsub(size_smt2, one_smt2), size_smt2)
             for i in range(size - 2, -1, -1):
                 # smt2 expression of i
                 i_smt2 = bit_vec_val(i, size)
